@@ -1103,6 +1103,67 @@ def open_pair_of(model, scn, cfg):
     return OpenPair(model, scn, cfg["path"], cfg["init_tags"], cfg["program_tags"], bytes.fromhex(cfg["rnd"]), faults)
 
 
+def run_reupload_pair(ctx, model, focus):
+    """`get_tag_list(None | '*')` again on an opened driver == `Opn.getTagList` on the Lean session `ld.open` made — first
+    with the target's own replies (other scope than open() used), then with the healthy replies of that upload queued in
+    both transports and one of them altered (status, encapsulation status, cut, flipped bit, other service): outcome,
+    frames, driver state, info and the tag database must agree; nothing but library exceptions may escape."""
+    rng = ctx.rng
+    stream = "ld-reupload-pair"
+    for i in range(ctx.budget(12, 120)):
+        p, scn, cfg = gen_open_setup(rng)
+        pair = open_pair_of(model, scn, cfg)
+        if pair.impl_result != ("ok", True) or not pair.ld_out.startswith("ok (result (ok T))"):
+            pair.close()
+            continue
+        steps = []
+        healthy = {}
+        for step in range(rng.choice([3, 4, 5])):
+            scope = rng.choice([None, "*"])
+            alter = scope in healthy and rng.random() < 0.85
+            what = None
+            if alter:
+                reps = healthy[scope]
+                k = rng.randrange(len(reps))
+                what, bad = alter_reply(rng, reps[k])
+                scripted = list(reps)
+                scripted[k] = bad
+                pair.sock.pending[:] = list(scripted)
+                assert model.ask("ld.pending " + " ".join(sx.hexb(x) for x in scripted)) == "ok"
+            steps.append("get_tag_list(%r)%s" % (scope, " with reply %d of %d altered: %s" % (k, len(reps), what) if alter else ""))
+            before, r0 = len(pair.sock.frames), len(pair.sock.replies)
+            try:
+                core.with_budget(120, pair.d.get_tag_list, scope)
+                pair.impl_result = ("ok", True)
+            except BaseException as e:  # noqa
+                if isinstance(e, (KeyboardInterrupt, SystemExit)):
+                    raise
+                pair.impl_result = ("raise", core.exn_class(e))
+            pair.impl_frames = [f.hex() for f in pair.sock.frames[before:]]
+            pair.ld_out = model.ask("ld.gettaglist " + _b(scope == "*"))
+            pair.sock.pending[:] = []
+            model.ask("ld.pending")
+            case = {"seed": ctx.seed, "index": i, "open": cfg, "steps": list(steps), "scenario": scn}
+            ctx.case(stream, (stream, scn, tuple(steps)))
+            ctx.count("%s/%s" % (stream, "altered/" + what.split(" ")[0] if alter else "healthy"))
+            ctx.count("%s/outcome/%s" % (stream, pair.impl_result[1] if pair.impl_result[0] == "raise" else "ok"))
+            if pair.impl_result == ("raise", "hang"):
+                break
+            if pair.impl_result[0] == "raise" and str(pair.impl_result[1]).startswith("foreign") and focus in ("C13", "C05"):
+                ctx.violation("get-tag-list-raises-foreign:%s" % str(pair.impl_result[1]).split(":")[-1],
+                              {k_: v_ for k_, v_ in case.items() if k_ != "scenario"}, "get_tag_list raised %s" % (pair.impl_result[1],))
+            verdict = compare_open(ctx, stream, case, pair)
+            if verdict != "ok":
+                break
+            if not alter and pair.impl_result == ("ok", True):
+                healthy[scope] = [r for r in pair.sock.replies[r0:] if r is not None]
+                if not healthy[scope]:
+                    del healthy[scope]
+            if pair.impl_result[0] == "raise":
+                break
+        pair.close()
+
+
 def run_open(ctx, model, focus):
     """LogixDriver.open() == Opn.openLogixSt, then read / write calls on the two self-contained sessions"""
     rng = ctx.rng
